@@ -160,8 +160,8 @@ def add_pattern_to(chk, r, n, **kw):
 # ----------------------------------------------------------------------------- PowellsMethod, complete model
 
 POW_NAME = ("whole optimizer PowellsMethod (counters, new_dim with checked argsort, the inner HillClimbingOptimizer rebuilt per dimension with its own "
-            "geometry, translation of inner positions, outer constraint check and repair; both known findings - IndexError without a valid score, "
-            "the inner climber's never-evaluated tracked pair - are PREDICTED by the model): GFO.Model.Powell driven through the driver model by the "
+            "geometry, translation of inner positions, outer constraint check and repair; without a valid score new_dim takes the current position - after its repair; the known finding "
+            "of the inner climber's never-evaluated tracked pair is PREDICTED by the model): GFO.Model.Powell driven through the driver model by the "
             "recorded tape must emit the same positions, rows, trace, best result or the same exception, the outer and the inner tracker, the counters "
             "and consume the tape exactly")
 
